@@ -253,8 +253,11 @@ func JSONMembers(n *oracle.Node, kvs []gen.KV, skip map[string]bool) (bool, stri
 			return false, fmt.Sprintf("member %q: %s", m.Key, why)
 		}
 	}
-	for k := range want {
+	for k, v := range want {
 		if !seen[k] {
+			if v.Kind == "group" && len(v.Items) == 0 && v.Go == nil {
+				continue // a group without members may be shown as an empty object or left out
+			}
 			return false, fmt.Sprintf("attribute %q is missing", k)
 		}
 	}
